@@ -26,6 +26,23 @@ def gen(rng, tier):
         if k % 12 == 11:
             yield FU.gen_raising_seq_case(rng)
             continue
+        if k % 24 == 5:
+            # systematic: arc-based on a grid with ONE time point and zero-time arcs only (every variable is a pair (s, s)); costs of
+            # some size, optionally the heuristic with a high cost
+            t0 = Fraction(rng.randint(0, 3))
+            ncust = rng.randint(1, 2)
+            names = ["D"] + [f"c{i + 1}" for i in range(ncust)]
+            nodes = [dict(name=nm, demand="0", lo="0", hi="inf" if nm == "D" else fs(t0 + rng.randint(0, 2))) for nm in names]
+            arcs = []
+            for nm in names[1:]:
+                arcs.append(["D", nm, "0", fs(Fraction(rng.randint(1, 9)))])
+                if rng.random() < 0.7:
+                    arcs.append([nm, "D", "0", fs(Fraction(rng.randint(1, 9)))])
+            case = dict(form="arc", spec=dict(nodes=nodes, arcs=arcs, cap="8", init="4"), grid=[fs(t0)], seed=rng.randrange(10 ** 6))
+            if rng.random() < 0.6:
+                case["heur"] = rng.choice(["100", "1000", "40"])
+            yield case
+            continue
         case = FU.gen_form_case(rng, tier, heur_p=0.6, forms=("arc", "path", "seq", "seq"))
         if case["form"] == "seq" and "heur" in case:
             case["V"] = rng.choice([0, 1, 1, 2])
